@@ -685,7 +685,11 @@ def check_twins(chk, tus, rule='R09.5'):
                        global_imports=[('env', 'g__x', 'i32', True)], globals_=[('i32', True, M.i32_const(1))],
                        memory_imports=[('env', 'mem', 1, 2, False)], memories=[(1, 2, False)],
                        table_imports=[('env', 'tab.le', 1, 2, False)], tables=[(1, 2, False)])
-    names = ['plain', 'a_b', 'a__b', 'x-y', 'X1', 'caf\xc3\xa9', '_', '__', 'a.b$c', '9z', 'end_']
+    names = ['plain', 'a_b', 'a__b', 'x-y', 'X1', 'caf\xc3\xa9', '_', '__', 'a.b$c', '9z', 'end_', '_._', 'cfg_._base', 'a_$_b', '_X_', 'a__.__b']
+    # for twins that take just a name (the escapers themselves): every string of up to 4 characters over a plain letter, the
+    # underscore, a character that is escaped and the escape letter - the escaping rules only look at such neighbourhoods
+    import itertools as _it
+    exhaustive = [''.join(t) for k_ in range(1, 5) for t in _it.product('a_.X', repeat=k_)]
     n = 0
     for fa, fb in pairs:
         pa = astdb.fn_params(ctu.functions[fa])[1:]
@@ -723,6 +727,8 @@ def check_twins(chk, tus, rule='R09.5'):
         if grids is None:
             chk.note('twin pair %s: parameter types %r not synthesised' % (site, ta))
             continue
+        if len(grids) == 1 and grids[0] is names:
+            grids = [names + exhaustive]
         import itertools
         for combo in itertools.product(*grids):
             vals = [Ptr({'v': module()}, 'v') if c == '<module>' else c for c in combo]
@@ -900,6 +906,32 @@ def check_whole_outputs(chk, tier):
     chk.extra['files_compiled'] = nc
 
 
+def check_worker_resources(chk, tu):
+    """the workers run the same recursive writers as the sequential path, on modules of any nesting depth: they are created with
+    default thread attributes (no reduced stack), so that what translates with -f 0 also translates when a worker writes it"""
+    n = 0
+    for name, f in sorted(tu.functions.items()):
+        if not (astdb.file_of(f) or '').startswith(astdb.REPO) or astdb.fn_body(f) is None:
+            continue
+        for c in walk(astdb.fn_body(f)):
+            if c.get('kind') != 'CallExpr':
+                continue
+            cn = astdb.callee_name(c) or ''
+            if cn == 'pthread_create':
+                n += 1
+                attr = strip(astdb.call_args(c)[1], casts=True)
+                is_null = astdb.const_int(attr, tu) == 0 or astdb.expr_text(attr).replace(' ', '') in ('NULL', '(void*)0', '0')
+                chk.expect(is_null, 'R09.1', '%s:thread-attributes' % name,
+                           '%s creates its worker with thread attributes %r; with anything but the defaults (NULL) the worker may have fewer '
+                           'resources (stack) than the thread that writes the single-file output' % (name, astdb.expr_text(attr)),
+                           '%s:thread-attributes' % name, astdb.loc_str(c))
+            elif re.match(r'pthread_attr_set(stacksize|stack|guardsize)$', cn):
+                chk.fail('R09.1', '%s:%s' % (name, cn), '%s calls %s: the worker threads get a stack that differs from the main thread\'s, so a '
+                         'deeply nested (valid) function that translates into one file can overflow the stack when -f routes it through a '
+                         'worker' % (name, cn), '%s:thread-stack' % name, astdb.loc_str(c))
+    chk.require(n >= 1, 'no pthread_create call found in the pthread configuration of c.c')
+
+
 def check_worker_call(chk, tu):
     """the worker hands the copied task fields to the file writer in the order of its parameters; the sequential build passes
     the same values directly"""
@@ -958,6 +990,7 @@ def run(chk):
     n_w = check_twins(chk, tus)
     c06.check_data_modes(chk, tus, 'R09.6')
     check_worker_call(chk, tu)
+    check_worker_resources(chk, tu)
     c10.check_name_dedup(chk, chk.tier, rule='R09.8')
     check_whole_outputs(chk, chk.tier)
     chk.extra['template_pairs'] = n_t
